@@ -113,6 +113,38 @@ HARNESSES = [
     H('u_set_public_key', 'harness', ['C05', 'C06', 'C07', 'C08', 'C09', 'C10', 'C14', 'C03'], variant='m32', unwind=8, mem_gb=14, timeout=2400,
       covers=['update Ok', 'Err(SequenceNumberTooHigh)', 'Err(SigningError)', 're-keyed'] + ["set to the signer's own key"],
       bounds='pre-state {id,k}; set_public_key(any key of the scheme); any seq, valid signature of 3..=6 bytes, any signer (same/other key, may fail, sig 3..=6 bytes); MAX_ENR_SIZE scaled to 32'),
+    H('u_build', 'harness', ['C05', 'C07', 'C08', 'C09', 'C10', 'C14', 'C03'], variant='m32', unwind=8, mem_gb=26, timeout=2400,
+      covers=['build Ok', 'Err(ExceedsMaxSize)', 'Err(SigningError)'],
+      bounds='builder: any seq, tcp4(any port), any signer; MAX_ENR_SIZE scaled to 32'),
+    H('u_build_raw', 'harness', ['C05', 'C07', 'C08', 'C09', 'C10', 'C04', 'C03'], variant='m32', unwind=8, mem_gb=14, timeout=2400,
+      covers=['build Ok', 'Err(SigningError)', 'Err(InvalidRlpData)'],
+      bounds='builder: any seq, add_value_rlp("x", any 0..=3 bytes incl. malformed), any signer; MAX_ENR_SIZE scaled to 32'),
+    H('a_verify_iff', 'harness', ['C05', 'C06', 'C01', 'C03'], variant='m32', unwind=8, mem_gb=14, timeout=2400,
+      covers=['verifies', 'good signature, other identity scheme', 'v4 with a bad signature'],
+      bounds='by-parts records {id:<any 2 bytes>, k, tcp:any port}, any seq, any signature of 0..=6 bytes'),
+    # ---- family D: decoder on templates, oracle verifier (C01, C02, C04, C07, C10, C13, C03) ----
+    H('d_min', 'harness', ['C01', 'C02', 'C04', 'C07', 'C10', 'C13'], tier='thorough', variant='m32', unwind=3, mem_gb=50, timeout=3600, flags=['--no-memory-safety-checks'],
+      covers=['decode Ok', 'well-formed but signature rejected', 'signature fine but malformed'],
+      bounds='template [sig4, seq 81xx, id:<2 bytes>, k:81xx]: all 2^64 fillings, uninterpreted verifier'),
+    H('d_min_lite', 'harness', ['C01', 'C02', 'C13', 'C03'], variant='m32', unwind=3, mem_gb=30, timeout=3600, flags=['--no-memory-safety-checks'],
+      covers=['decode Ok', 'well-formed but signature rejected'],
+      bounds='template [sig4, seq 81xx, id:<2 bytes>, k:81xx]: all 2^64 fillings, uninterpreted verifier, lean observations'),
+    H('d_gate', 'harness', ['C09', 'C02', 'C13', 'C03'], variant='plain', unwind=4, mem_gb=10, timeout=1200,
+      cbmc=['--max-field-sensitivity-array-size', '600'],
+      covers=['301-byte item refused for size', '300-byte item passes the gate'],
+      bounds='unscaled source: outer list header announcing 256..=420 payload bytes, 0..=64 bytes after the item'),
+    # ---- family G: key back-end glue, primitive stubbed (C01, C10, C11 fragment) ----------------
+    H('g_k256_verify', 'harness-glue', ['C01', 'C03'], variant='plain', unwind=70, mem_gb=10, timeout=1500,
+      unwindset=[(r'GenericArray<u8.*GenericSequence<u8>>::generate', 140), (r'block_buffer::BlockBuffer', 140)],
+      covers=['signature accepted', 'EC equation said no', 'high-S rejected before the equation'],
+      bounds='k256 verify_v4: any key object, any signature buffer of 0..=66 bytes, message "abcd"; EC equation stubbed'),
+    H('g_ed_encode', 'harness-glue', ['C10', 'C11', 'C03'], variant='plain', unwind=34, mem_gb=6, timeout=900,
+      bounds='ed25519 public-key encodings: any key object'),
+    H('g_secp_encode_unc', 'harness-glue', ['C10', 'C11', 'C03'], variant='plain', unwind=67, mem_gb=6, timeout=900,
+      bounds='rust-secp256k1 encode_uncompressed: any 65-byte FFI serialisation'),
+    H('g_combined_precedence', 'harness-glue', ['C11', 'C03'], variant='plain', unwind=40, mem_gb=10, timeout=1800,
+      covers=['both valid: secp256k1 wins', 'invalid secp256k1 entry: falls back to ed25519', 'no usable key'],
+      bounds='CombinedKey::enr_to_public: presence of either entry x validity of either key (symbolic bits), point decoding stubbed'),
 ]
 
 BY_NAME = {h.name: h for h in HARNESSES}
